@@ -8,3 +8,52 @@ Open Scope N_scope.
 Theorem C10_source_reviewed : group_ok 10 = true.
 Proof. exact gen_group_10. Qed.
 Print Assumptions C10_source_reviewed.
+From Verif Require Import Model.ScriptInst Proofs.Exec_generic Proofs.Exec_instances Proofs.ScriptInst_proofs.
+
+(** Every journal instruction a frame executes itself is filed under that frame's storage address
+    ([f_self]: the callee for CALL/STATICCALL, the caller's address under DELEGATECALL/CALLCODE, the new
+    contract during creation — see the [fctx] each entry point builds) and under the call index of the
+    innermost CALL/CREATE node: the index the cursor had when the frame started, no matter how many calls
+    of whatever kind, failing or not, the frame makes between its journal instructions.  Journal events of
+    callees carry strictly deeper depth tags, so entries of different frames never mix. *)
+Theorem C10_attribution : forall W M HT can_transfer transfer balance_of exists_acct create_account code_of collides
+    get_nonce set_nonce acl_add set_code touch is_homestead is_eip158 is_berlin is_london max_code_size is_precompile precompile
+    local_step init_machine keccak artela jp_on debug asp_logger bound aspect,
+  (forall d fc m w, Forall plain_event (step_events (local_step d fc m w))) ->
+  (forall d fc m w, Forall no_journal_event (step_events (local_step d fc m w))) ->
+  (forall d fc m w, Forall (fun e => is_jp_event e = false) (step_events (local_step d fc m w))) ->
+  forall fuel d fc m s r s',
+  ct_wf (tc (xt s)) ->
+  run W M HT can_transfer transfer balance_of exists_acct create_account code_of collides get_nonce set_nonce
+      acl_add set_code touch is_homestead is_eip158 is_berlin is_london max_code_size is_precompile precompile
+      local_step init_machine keccak artela jp_on debug asp_logger bound aspect fuel (S d) fc m s = Some (r, s') ->
+  exists evs, xe s' = xe s ++ evs /\
+              Forall (attributed (S d) (f_self fc) (current_index (tc (xt s)))) evs /\
+              ct_wf (tc (xt s')) /\ current (tc (xt s')) = current (tc (xt s)).
+Proof. exact run_attribution. Qed.
+Print Assumptions C10_attribution.
+
+Theorem C10_callee_entries_tagged_deeper : forall W M HT can_transfer transfer balance_of exists_acct create_account code_of collides
+    get_nonce set_nonce acl_add set_code touch is_homestead is_eip158 is_berlin is_london max_code_size is_precompile precompile
+    local_step init_machine keccak artela jp_on debug asp_logger bound aspect,
+  (forall d fc m w, Forall plain_event (step_events (local_step d fc m w))) ->
+  (forall d fc m w, Forall no_journal_event (step_events (local_step d fc m w))) ->
+  (forall d fc m w, Forall (fun e => is_jp_event e = false) (step_events (local_step d fc m w))) ->
+  forall fuel, P_all W M HT can_transfer transfer balance_of exists_acct create_account code_of collides get_nonce set_nonce
+      acl_add set_code touch is_homestead is_eip158 is_berlin is_london max_code_size is_precompile precompile
+      local_step init_machine keccak artela jp_on debug asp_logger bound aspect (Qtag W) fuel.
+Proof. exact journal_tags. Qed.
+Print Assumptions C10_callee_entries_tagged_deeper.
+
+(** The recorded list per (account, key, call) is the chronological sequence with immediate repeats
+    collapsed (C11_last_value / Model/KeyTree.v append_change); entries of frames that later fail stay:
+    the tracer is not part of the world state the revert restores (Model/Exec.v: [tail] resets [xw] only). *)
+Theorem C10_failed_frames_keep_entries : forall W w0 r (s : xstate W) r' s',
+  tail W w0 r s = (r', s') -> xt s' = xt s.
+Proof. intros W w0 r s r' s'. unfold tail. destruct (r_err r); intros H; inversion H; reflexivity. Qed.
+Print Assumptions C10_failed_frames_keep_entries.
+
+Example C10_side_condition_inhabited : forall d fc m w,
+  Forall plain_event (step_events (s_step d fc m w)) /\ Forall no_journal_event (step_events (s_step d fc m w)) /\
+  Forall (fun e => is_jp_event e = false) (step_events (s_step d fc m w)).
+Proof. intros. split; [apply s_step_plain|split; [apply s_step_no_journal|apply s_step_no_jp]]. Qed.
